@@ -6,6 +6,8 @@ systematically from the real operator registry:
   K  operators with `const` parameters: plain literal, and a *computed* constant (`lit(a) + b`)
   W  window / aggregate operators with empty `arrange=[]` / `partition_by=[]`
   S  slices without an order, alone and below a forced subquery
+  G  every verb (group_by + summarize / mutate, arrange + slice below a subquery, window keys, null filters, joins,
+     distinct unions, case keys, min / max) over a column of every dtype
 
 Every case is built on every dialect; the outcome must be one SELECT (same text twice) or
 NotSupportedError / SubqueryError.  A case rejected by a verb with a documented exception is not an
@@ -232,8 +234,62 @@ def slice_cases():
             ("S.arranged_offset_twice", s5), ("S.zero", s6), ("S.grouped_offset", s7)]
 
 
+def verb_dtype_cases():
+    """every verb over a column of every dtype (dialect rewrites are dtype-directed: MSSQL bool / bit, null ordering, collations)"""
+    out = []
+    for cn, _ in COLS:
+        def gb_sum(t, cn=cn):
+            pdt = _pdt()
+            return t >> pdt.group_by(t[cn]) >> pdt.summarize(n=pdt.count(), m=t.i.max())
+
+        def gb_mut(t, cn=cn):
+            pdt = _pdt()
+            return t >> pdt.group_by(t[cn]) >> pdt.mutate(w=t.i.sum()) >> pdt.ungroup()
+
+        def gb_two(t, cn=cn):
+            pdt = _pdt()
+            return t >> pdt.group_by(t[cn], t.j) >> pdt.summarize(n=pdt.count()) >> pdt.filter(pdt.C.n > 1)
+
+        def arr_slice(t, cn=cn):
+            pdt = _pdt()
+            return t >> pdt.arrange(t[cn].descending().nulls_last(), t.i) >> pdt.slice_head(3, offset=1) >> pdt.alias() >> pdt.filter(pdt.C.i > 0)
+
+        def part_win(t, cn=cn):
+            pdt = _pdt()
+            return t >> pdt.mutate(w=t.i.shift(1, arrange=[t[cn].nulls_first(), t.i]), r=pdt.row_number(partition_by=t[cn], arrange=t.i))
+
+        def flt_null(t, cn=cn):
+            pdt = _pdt()
+            return t >> pdt.filter(t[cn].is_null() | (t[cn] == t[cn])) >> pdt.mutate(z=t[cn].fill_null(t[cn]))
+
+        def join_on(t, cn=cn):
+            pdt = _pdt()
+            u = t >> pdt.alias("u")
+            return t >> pdt.left_join(u, t[cn] == u[cn]) >> pdt.select(t.i, u.j)
+
+        def union_distinct(t, cn=cn):
+            pdt = _pdt()
+            u = t >> pdt.alias("u")
+            return t >> pdt.select(t[cn]) >> pdt.union(u >> pdt.select(u[cn]), distinct=True)
+
+        def case_key(t, cn=cn):
+            pdt = _pdt()
+            return (t >> pdt.mutate(k=pdt.when(t[cn].is_null()).then(t.b).otherwise(t.c)) >> pdt.group_by(pdt.C.k) >> pdt.summarize(n=pdt.count())
+                    >> pdt.arrange(pdt.C.k))
+
+        def minmax(t, cn=cn):
+            pdt = _pdt()
+            return t >> pdt.group_by(t.j) >> pdt.summarize(lo=t[cn].min(), hi=t[cn].max(), c=t[cn].count())
+
+        out += [(f"G.group_summarize.{cn}", gb_sum), (f"G.group_mutate.{cn}", gb_mut), (f"G.group_two.{cn}", gb_two),
+                (f"G.arrange_slice_subquery.{cn}", arr_slice), (f"G.window_keys.{cn}", part_win), (f"G.filter_null.{cn}", flt_null),
+                (f"G.join_on.{cn}", join_on), (f"G.union_distinct.{cn}", union_distinct), (f"G.case_key.{cn}", case_key),
+                (f"G.min_max.{cn}", minmax)]
+    return out
+
+
 def all_cases():
-    return literal_cases() + const_param_cases() + window_cases() + slice_cases()
+    return literal_cases() + const_param_cases() + window_cases() + slice_cases() + verb_dtype_cases()
 
 
 def run_grid() -> list[dict]:
